@@ -260,6 +260,8 @@ def rand_value(rng):
     if r < 0.97:
         pick = lambda: rng.choice([0, 1, 2, 3, -1, 4, 6, 400, 2 ** 20])
         return dict(blank, f="fpt", n=dbl(pick()) + dbl(pick()))
+    if r < 0.985:
+        return dict(blank, f="vec", c=rand_string_rle(rng), n=[rng.choice([0, 1, 7]), rng.choice([0, 1, 3, 40])])
     return dict(blank, f="s", c=codes(rng.choice(WORDS)))
 
 
@@ -276,6 +278,8 @@ def fitting_value(rng, name):
     h = HINT.get(name.lower(), "num")
     blank = {"n": [], "c": [], "sty": ""}
     if h == "str":
+        if rng.random() < 0.3:     # the same bytes as a span of a longer buffer (character vector source)
+            return dict(blank, f="vec", c=rand_string_rle(rng), n=[rng.choice([0, 0, 1, 7]), rng.choice([0, 1, 3, 40])])
         return dict(blank, f="rle", c=rand_string_rle(rng))
     if h == "col":
         if rng.random() < 0.3:
